@@ -74,4 +74,24 @@ theorem notify_tie (h : HdlrView) (need : Bool) (fx : List Bool) (event : String
 example : CodeC14.compose ⟨"Ingress", false, false, fun o => o.name⟩ ["d/i1"] ["add/Ingress:d/i1"] "update" ⟨"d", "i2"⟩
     = (["d/i1", "d/i2"], ["add/Ingress:d/i1", "update/Ingress:d/i2"]) := by decide +kernel
 
+/-! ## the informer callbacks: one critical section per event -/
+
+/-- **`Create` / `Update` / `Delete`: the per-kind closure (the list entry), `compose` (link + description) and
+`notify` all happen between ONE `Lock` and the deferred `Unlock`**, in this order — the atomic step `C14.onEvent` of the
+model (seed C14b moved the closure out of the critical section) -/
+theorem handlers_tie (h : HdlrCbView) :
+    CodeC14.handlerCreate h [] =
+      ["Lock"] ++ (if h.hasAdd then ["callback:add"] else []) ++ ["compose:add", "notify:create", "Unlock"] ∧
+    CodeC14.handlerUpdate h [] =
+      ["Lock"] ++ (if h.hasUpd then ["callback:upd"] else []) ++ ["compose:update", "notify:update", "Unlock"] ∧
+    CodeC14.handlerDelete h [] =
+      ["Lock"] ++ (if h.hasDel then ["callback:del"] else []) ++ ["compose:del", "notify:delete", "Unlock"] := by
+  obtain ⟨a, u, d⟩ := h
+  cases a <;> cases u <;> cases d <;> decide
+
+/-- `Generic` (a resync request): full sync owed, one notification, no description -/
+theorem generic_tie (h : HdlrCbView) (need : Bool) :
+    CodeC14.handlerGeneric h need [] = (true, ["Lock", "notify:generic", "Unlock"]) := by
+  rfl
+
 end HapVerif.C14Tie
